@@ -138,6 +138,9 @@ def inputs_for(T, env, rng):
             ri, replaced = vs.raw_instance(T, w, env, env.defs)
             if replaced:
                 outs.append(("rawinst", ri))
+            if isinstance(w, list) and w:
+                # a one-shot source whose middle element no member routine takes (made anew for every call)
+                outs.append(("gen_bad_middle", (lambda w=w: (e for e in [*w, object(), *w]))))
         except Exception:
             pass
     outs += [("junk", j) for j in (None, "abc", 12, [1, "x"], {"a": "1", "b": "2020-01-01", "n": "3", "x": "5", "v": "1"}, "[1]")]
@@ -242,7 +245,9 @@ def collect(ctx: Ctx, quick: bool):
             for oname, call in origins:
                 if quick and oname != "object" and pos not in ("root", "class_field") and rng.random() < 0.6:
                     continue
-                for kind, x in ins:
+                for kind, x0 in ins:
+                    lazy = kind.startswith("gen_")
+                    x = x0() if lazy else x0
                     if oname.startswith("string") or oname.startswith("forwardref"):
                         clear_typelib_caches()       # REFNAME is rebound per position; references are memoised by name
                     plainT = typing.Union[annT, m1.Zed] if oname == "string_qualified_union" else annT
@@ -253,7 +258,8 @@ def collect(ctx: Ctx, quick: bool):
                         op = "marshal"
                     else:
                         a, _ = vs.out_of(call, m1.um, x) if oname != "object" else vs.out_of(typelib.unmarshal, annW, x)
-                        b, _ = vs.out_of(typelib.unmarshal, list[annT], [x]) if inlist else vs.out_of(typelib.unmarshal, plainT, x)
+                        xb = x0() if lazy else x
+                        b, _ = vs.out_of(typelib.unmarshal, list[annT], [xb]) if inlist else vs.out_of(typelib.unmarshal, plainT, xb)
                         op = "unmarshal"
                     events.append({"ev": "pair", "a": norm(a), "b": norm(b)})
                     meta.append({"base": bname, "chain": list(chain), "pos": pos, "origin": oname, "op": op, "input": repr(x)[:80]})
